@@ -873,7 +873,12 @@ func (ix *Index) populateDeleteClaim(ctx context.Context, cl schema.Claim, vr *j
 		log.Print(fmt.Errorf("no valid target for delete claim %v", br))
 		return nil
 	}
+	// GetBlobMeta reads the corpus, which is guarded by the index lock; we are
+	// called before ReceiveBlob takes it, possibly while another (out-of-order
+	// re-indexing) goroutine commits to the corpus.
+	ix.RLock()
 	meta, err := ix.GetBlobMeta(ctx, target)
+	ix.RUnlock()
 	if err != nil {
 		if errors.Is(err, os.ErrNotExist) {
 			if err := ix.noteNeeded(br, target); err != nil {
